@@ -233,11 +233,15 @@ static void meaning_case(const Args& a, long i, Agg& agg) {
     }
     if (tag == "sampling_period") {
         int mA = m_s, mB = m_s + g.range(1, 3);
-        B = A; setv(B.num, "sampling_period", g, mB * dt, true); su.use_run = true;
+        // half of the cases: a sampling period that is not a whole number of time steps ((2 mB + 1) / 2 steps, exactly representable): the k-th file is
+        // due at the first step whose time reaches k S, i.e. floor((n_it - 1) / q) + 1 files
+        const bool half = g.coin(0.5);
+        B = A; setv(B.num, "sampling_period", g, half ? (2 * mB + 1) * (dt / 2) : mB * dt, true); su.use_run = true;
+        if (half) agg.bin("sampling_period_not_a_multiple_of_time_step");
         if (run_pair(m, oa, ob)) {
-            int w = 0; for (Obs* o : {&oa, &ob}) { int ms = (w++ == 0) ? mA : mB; long want = (n_it + ms - 1) / ms;
+            int w = 0; for (Obs* o : {&oa, &ob}) { const bool isB = w++ != 0; int ms = isB ? mB : mA; long want = (isB && half) ? (2 * (long)(n_it - 1)) / (2 * mB + 1) + 1 : (n_it + ms - 1) / ms;
                 std::vector<long> exp; for (long k = 1; k <= want; k++) exp.push_back(k);
-                if (o->files_cell != exp || o->files_face != exp) { std::string got; for (long k : o->files_cell) got += std::to_string(k) + " "; m.fail("number_of_output_files", std::to_string(n_it) + " steps, sampling period = " + std::to_string(ms) + " steps: expected result_1.." + std::to_string(want) + " in cell_data and face_data of the folder named in the file, found cell_data: " + got); } }
+                if (o->files_cell != exp || o->files_face != exp) { std::string got; for (long k : o->files_cell) got += std::to_string(k) + " "; m.fail("number_of_output_files", std::to_string(n_it) + " steps, sampling period = " + std::to_string(ms) + ((isB && half) ? ".5" : "") + " steps: expected result_1.." + std::to_string(want) + " in cell_data and face_data of the folder named in the file, found cell_data: " + got); } }
             agg.bin("output_folder_from_file_used");
         }
         finish_case(true); return;
